@@ -2,6 +2,8 @@
 (* impl -> spec for C11.  Each trace is one ground agent of one REAL scenario    *)
 (* (harness/drivers/c11.py):                                                    *)
 (*   [startSec, dt, plan |-> step sizes (s), one per logged step, db |-> 0/1,     *)
+(*    reused |-> 1 iff its configuration object had been converted before at      *)
+(*               another epoch, st0 |-> the record at the instant of creation,     *)
 (*    join |-> scenario steps of dt taken before the agent was added (st holds   *)
 (*             the steps after that; all times stay relative to the scenario start),*)
 (*    invMs |-> Terrestrial.datetime_start minus the authoritative start, in ms,  *)
@@ -40,6 +42,9 @@ PickBlock == /\ i = 0 /\ \E b \in 1..NB : i' = -b
 PickTrace == /\ i < 0
              /\ \E j \in {n \in DOMAIN Tr : n % NB = (-i) - 1} :
                   /\ i' = j /\ startSec' = Tr[j].startSec /\ dt' = Tr[j].dt /\ plan' = Tr[j].plan
+                  \* reused = 1: the agent was built from a configuration object that had already
+                  \* been converted at another epoch (another scenario's start)
+                  /\ first' = IF Tr[j].reused = 1 THEN 22663 ELSE -1
              /\ pc' = "posed"
              /\ UNCHANGED <<lon, theta0, invErr, clockSec, k, siteEpoch, inertial, vel, join, siteLon>>
 \* the scenario steps Tr[i].join times before the agent is added (Scenario.addSensor)
@@ -50,8 +55,9 @@ TraceStep  == /\ i > 0 /\ k < Len(Tr[i].st) /\ PlanStep /\ UNCHANGED i
 TraceNext == PickBlock \/ PickTrace \/ TraceWait \/ TraceBuild \/ TraceStep
 TraceSpec == TraceInit /\ [][TraceNext]_tvars
 
-Rec == Tr[i].st[k]
-Logged == i > 0 /\ pc = "run" /\ k > 0
+\* st0 is the agent observed at the instant it was created / joined, before any propagation
+Rec == IF k = 0 THEN Tr[i].st0 ELSE Tr[i].st[k]
+Logged == i > 0 /\ pc = "run"
 \* Every clause is evaluated on every state of every trace: a clause that fails prints one
 \* line  <<"REJECT", trace, step, clause>>  (so that one failing clause does not hide the
 \* others); a trace is accepted iff it reaches its end (ACCEPTED) without any REJECT line.
@@ -70,7 +76,7 @@ TrOwnFieldsFixed  == Logged => Clause("TrOwnFieldsFixed", Rec.ownDispMm < 1000 /
 \* db = 1: the truth row of every step must exist and lie at the site; db = 2 (agent added
 \* mid-run, whose rows the output database does not hand back - that is C09's subject): rows that
 \* exist must lie at the site; db = 0: an agent stepped directly, there is no database
-TrDbRowFixed      == (Logged /\ Tr[i].db > 0) =>
+TrDbRowFixed      == (Logged /\ k > 0 /\ Tr[i].db > 0) =>
                         Clause("TrDbRowFixed", (Tr[i].db = 2 \/ Rec.dbDispMm >= 0) /\ Rec.dbDispMm < 1000)
 \* VelIsRotation: Earth-fixed velocity below 1e-6 km/s; inertial speed = omega * axis distance
 TrVelIsRotation   == Logged => Clause("TrVelIsRotation", Rec.velErr < 1000 /\ Rec.speedErr < 5000)
